@@ -23,7 +23,8 @@ RULES = {}
 
 
 def rule(name, pattern, replacement, doc):
-    RULES[name] = ("pat", pattern.split(), replacement.split(), doc)
+    # pattern elements are separated by blanks; a blank inside a literal token is written as U+2423
+    RULES[name] = ("pat", [x.replace("\u2423", " ") for x in pattern.split()], [x.replace("\u2423", " ") for x in replacement.split()], doc)
 
 
 def pyrule(name, fn, doc):
@@ -805,6 +806,36 @@ rule("D6.s_contains",
      "s . contains ( $l:str )",
      "shim_contains_str ( & s , $l )",
      "String/Cow<str>::contains(literal)")
+
+rule("D8.format_digest_open",
+     "format ! ( \"{}\u2423(\" , c . digest ) . as_bytes ( )",
+     "& shim_fmt_digest_open ( & c . digest )",
+     "format!(\"{} (\", digest).as_bytes(): Display of the digest followed by \" (\", as bytes")
+
+rule("D8.format_close_hash",
+     "format ! ( \")\u2423=\u2423{}\\n\" , c . hash ) . as_bytes ( )",
+     "& shim_fmt_close_hash ( & c . hash )",
+     "format!(\") = {}\\n\", hash).as_bytes()")
+
+rule("D8.format_close_size",
+     "format ! ( \")\u2423=\u2423{}\u2423bytes\\n\" , size ) . as_bytes ( )",
+     "& shim_fmt_close_size ( size )",
+     "format!(\") = {} bytes\\n\", size).as_bytes()")
+
+rule("D6.path_as_bytes",
+     "filename . as_os_str ( ) . as_bytes ( )",
+     "shim_path_bytes ( filename )",
+     "Path::as_os_str().as_bytes()")
+
+rule("D6.imap_values",
+     "$recv . values ( )",
+     "shim_imap_values ( & $recv )",
+     "IndexMap::values() collected into a Vec<&Entry> (insertion order)")
+
+rule("D6.osstring_as_bytes",
+     "s . as_bytes ( )",
+     "shim_osstring_bytes ( s )",
+     "OsString::as_bytes()")
 
 rule("D6.take_digits",
      "$recv . chars ( ) . take_while ( char :: is_ascii_digit ) . collect ( )",
